@@ -32,7 +32,8 @@ def _impl_worker(args):
 
 def case_to_json(case: SchedCase) -> dict:
     return {'component': 'sched', 'seed': case.seed, 'executor': case.executor, 'epoch_ns': case.epoch_ns, 'tz': case.tz,
-            'lines': case.lines, 'specs': {str(k): v for k, v in case.specs.items()}}
+            'lines': case.lines, 'specs': {str(k): v for k, v in case.specs.items()},
+            **({'meta': case.meta} if case.meta.get('scenario') == 'reentrant' else {})}
 
 
 def _tuplify(x):
@@ -52,7 +53,7 @@ def _spec_from_json(x):
 
 def case_from_json(d: dict) -> SchedCase:
     specs = {int(k): _spec_from_json(v) for k, v in d.get('specs', {}).items()}
-    return SchedCase(d['seed'], d['executor'], d['epoch_ns'], list(d['lines']), specs, {}, d.get('tz', 'UTC'))
+    return SchedCase(d['seed'], d['executor'], d['epoch_ns'], list(d['lines']), specs, dict(d.get('meta', {})), d.get('tz', 'UTC'))
 
 
 # ----------------------------------------------------------------------------------------------- projections
@@ -167,6 +168,39 @@ def recurring_oracle(case: SchedCase, groups: list[Group]) -> list[str]:
                         return out
         prev_now = g.now
     return out
+
+
+def reentrant_oracle(case: SchedCase, groups: list[Group]) -> list[str]:
+    """C09 for the re-entrant scenario: among the jobs started in one wake-up (same instant, same operation group) a job
+    never runs before another one with an earlier run time that already existed when it was started"""
+    dues = {int(k): v for k, v in case.meta['dues'].items()}
+    spawned = {int(k): v for k, v in case.meta['spawned'].items()}
+    out = []
+    for gi, g in enumerate(groups):
+        started: list[int] = []
+        for i, (h1, a1) in enumerate(g.execs):
+            for (h2, a2) in g.execs[i + 1:]:
+                if a1 != a2 or h1 not in dues or h2 not in dues:
+                    continue
+                existed = h2 not in spawned or spawned[h2] in started
+                if existed and dues[h1] > dues[h2]:
+                    out.append(f'group {gi}: at {a1} job {h1} (due {dues[h1]}) ran before job {h2} (due {dues[h2]}), '
+                               f'which was waiting in the same wake-up')
+            started.append(h1)
+    want = set(dues)
+    got = {h for g in groups for h, _ in g.execs}
+    if want - got:
+        out.append(f'jobs {sorted(want - got)} were never executed although their run time has passed')
+    return out
+
+
+def reentrant_model_order(case: SchedCase) -> list[int]:
+    """the order `Reentrant.lean` predicts for the wake-up of a re-entrant case"""
+    m = case.meta
+    (hx, spawner), = m['spawned'].items()
+    line = f"reent {m['now']} {spawner} {hx} {m['dues'][str(hx)]} " + ' '.join(f"{h} {m['dues'][str(h)]}" for h in m['created'])
+    blocks = run_model([line])
+    return [int(x.split()[1]) for x in blocks[0] if x.startswith('exec')]
 
 
 class SchedProp:
@@ -307,6 +341,31 @@ class SchedProp:
                         break           # every further case would spend its whole watchdog budget as well
                     continue
                 self.check_case(run, case, impl)
+        if self.pid == 'C09':
+            # directed, oracle only: a synchronous callable creates a job that is due at once in the middle of a wake-up
+            from gen_sched import gen_reentrant_case
+            import random as _random
+            for i in range({'quick': 40, 'thorough': 1500}[run.tier]):
+                seed = base + 20_000_000 + i
+                case = gen_reentrant_case(seed, _random.Random(seed))
+                try:
+                    impl = _impl_groups(case)
+                except BaseException as e:  # noqa: BLE001
+                    if isinstance(e, KeyboardInterrupt):
+                        raise
+                    self.crashed(run, case, f'{type(e).__name__}: {e}')
+                    break
+                run.evaluations += 1
+                run.stats['reentrant_cases'] = run.stats.get('reentrant_cases', 0) + 1
+                for msg in reentrant_oracle(case, impl):
+                    run.findings.append(Finding('oracle', msg, case_to_json(case)))
+                got = [h for g in impl for h, _ in g.execs]
+                want = reentrant_model_order(case)
+                run.traces_validated += 1
+                if got != want:
+                    run.findings.append(Finding('correspondence', f're-entrant wake-up: the code started the jobs in the order {got}, '
+                                                                  f'the model (Reentrant.lean) in the order {want}',
+                                                {**case_to_json(case), 'broken': 'correspondence sched/reentrant'}))
         # S: a broken correspondence without a failing input -> search harder on the real code alone
         if any(f.kind == 'correspondence' for f in run.findings) and not any(f.kind == 'oracle' for f in run.findings):
             extra = [base + 10_000_000 + i for i in range(n * 2)]
@@ -331,7 +390,7 @@ class SchedProp:
     def shrink(self, run: Run) -> None:
         """delta-debug the first failing input (remove operations while the oracle still fails)"""
         for f in run.findings:
-            if f.kind != 'oracle':
+            if f.kind != 'oracle' or f.replay.get('meta', {}).get('scenario') == 'reentrant':
                 continue
             case = case_from_json(f.replay)
             lines = list(case.lines)
@@ -367,6 +426,16 @@ class SchedProp:
     def replay(self, run: Run, obj: dict) -> None:
         case = case_from_json(obj)
         try:
+            if case.meta.get('scenario') == 'reentrant':
+                run.evaluations += 1
+                impl = _impl_groups(case)
+                for msg in reentrant_oracle(case, impl):
+                    run.findings.append(Finding('oracle', msg, case_to_json(case)))
+                got, want = [h for g in impl for h, _ in g.execs], reentrant_model_order(case)
+                if got != want:
+                    run.findings.append(Finding('correspondence', f're-entrant wake-up: code order {got}, model order {want}',
+                                                {**case_to_json(case), 'broken': 'correspondence sched/reentrant'}))
+                return
             self.check_case(run, case)
         except KeyboardInterrupt:
             raise
